@@ -16,3 +16,6 @@ pub assume_specification<T: Copy>[ Option::<&T>::copied ](o: Option<&T>) -> (r: 
 pub assume_specification<T, F: FnOnce(T) -> bool>[ Option::<T>::is_some_and ](o: Option<T>, f: F) -> (r: bool)
     requires o matches Some(x) ==> f.requires((x,)),
     ensures o is None ==> !r, o matches Some(x) ==> f.ensures((x,), r);
+pub assume_specification<T, E, U, F: FnOnce(T) -> Result<U, E>>[ Result::<T, E>::and_then ](o: Result<T, E>, f: F) -> (r: Result<U, E>)
+    requires o matches Ok(x) ==> f.requires((x,)),
+    ensures o matches Err(e) ==> r == Err::<U, E>(e), o matches Ok(x) ==> f.ensures((x,), r);
